@@ -117,6 +117,10 @@ impl<'a, 'b> HeaderWriter<'a, 'b> {
 
         let mut count = I::zero();
         for (v, i) in iter {
+            // the count field cannot represent more items than its width allows
+            if count.widen_to_u16() == u16::MAX >> (8 * (2 - I::SIZE as u32)) {
+                return Err(scursor::WriteError::NumericOverflow);
+            }
             i.write(self.cursor)?;
             v.write(self.cursor)?;
             count.increment();
